@@ -27,6 +27,34 @@ func replayOpenAPI(eng *Engine) string {
 	return runKitReplay(eng, replayOpenAPISrc, "zz_govc_openapi_test.go", "TestGovcOpenAPIReplay", "OpenAPI export of documents on the real code (package kit):")
 }
 
+//go:embed replay_descend_test.go.tmpl
+var replayDescEndSrc string
+
+// descEndChecks: BOUNDED check of the real scanner under C13 and C12 (see the template).
+func (e *Engine) descEndChecks(id string) []fdResult {
+	if id != "C13" && id != "C12" {
+		return nil
+	}
+	out := runPkgReplay(e, "scanner", replayDescEndSrc, "zz_govc_descend_test.go", "TestGovcDescriptionEnd", "keywords after a Description text on the real scanner:")
+	return []fdResult{{Name: "scanner.Scanner/bounded/description-end#1", Props: []string{id},
+		Goal: "BOUNDED (30 keywords and the codes 100-599, 3 continuations each; 6 near-misses): a line of an unparenthesised Description text that begins with a keyword or a response code ends the text and is reported as that keyword (bounded sample, not a proof)",
+		OK:   strings.Contains(out, "DONE tried=") && !strings.Contains(out, "REPRODUCED input"), Detail: out}}
+}
+
+//go:embed replay_quote_test.go.tmpl
+var replayQuoteSrc string
+
+// quoteChecks: BOUNDED check of the real jerr.quote / NewLocation under C07 (see the template).
+func (e *Engine) quoteChecks(id string) []fdResult {
+	if id != "C07" {
+		return nil
+	}
+	out := runPkgReplay(e, "jerr", replayQuoteSrc, "zz_govc_quote_test.go", "TestGovcQuote", "quotes and line/column on the real jerr functions:")
+	return []fdResult{{Name: "jerr.quote/bounded/quote-is-the-line#1", Props: []string{id},
+		Goal: "BOUNDED (14 contents with LF, CR, CRLF and mixed line breaks x every index): the quote is the text of the line the index lies on - the line notion of the dependency's LineAndColumn - and Line/Column are those of exactly that index (bounded sample, not a proof)",
+		OK:   strings.Contains(out, "DONE tried=") && !strings.Contains(out, "REPRODUCED input"), Detail: out}}
+}
+
 //go:embed replay_layout_test.go.tmpl
 var replayLayoutSrc string
 
